@@ -1,36 +1,41 @@
 import RrProofs.Lemmas.SysCacheTerm
 import RrProofs.Props.C07
 /-
-  Termination of the cached request path (`Model.SysCache`): after the repairs for C08-c and C09-g ONE
-  re-entry of `server.cachingFunc` is the last one, so two activations always suffice and the label
-  `fuel` (no answer) never shows.
+  Termination of the cached request path (`Model.SysCache`), UNCONDITIONAL since the repair of the
+  two-values loop (after a successful `SetRevalidatedAndClose` the handler re-enters with
+  `skipRevalidate = true`): ONE re-entry of `server.cachingFunc` is ALWAYS the last one.
 
-  A. `keysOf_client1Of`, `keysOf_client2Of`: both re-entries compute the SAME key list (full `Key`
-     equality, no hypothesis on the raw keys of the client header).
-  B. `storageGet_idempotent`; `notFound_writer_done`.
-  C. `stale_reenter_then_done`: the re-entry after stale-if-error (`w:stale>`, skip = true) answers.
-     NO hypothesis.
-  D. `reenter304_then_done`: the re-entry after a 304 (`w:304>`, skip = false) answers when the
-     re-published entry reads back fresh (`ReadsBackFresh`).  `row304_reenter`,
-     `reenter304_no_authorization`: this arm exists only for writers that wrote; a writer with
-     `diskWritesDisabled` leaves through `Step.reenterLocked` (`row304_locked`), which does not recurse
-     (`reenterLocked_needs_no_fuel`).
-  E. `reenter_then_done`, `cachingFunc_two`, `fuel_two_suffices`, `answered`, `step_fuel_irrelevant`,
-     `step_answered` under the one hypothesis `Settles304`; `settles304_of` derives it from
-     H1 codec fidelity on the re-published metadata (`CodecFaithful`; decidable sufficient condition
-     `codecFaithful_of_representable` = the complement of finding C07-a), H2 `now ≠ 0`, and "the stored
-     header gives no do-not-cache reason"; H3 (the MERGED header gives none) is derived
-     (`Lemmas.SysCacheTerm.doNotCache_merge304`).
-  Unconditionally (`answered_by_watchdog`, `step_answered_by_watchdog`): the harness's contact limit
-  bounds the re-entries of the MODEL, so `step` never shows `fuel` with the default configuration.
+  * `reenter_skip_true`: every `Step.reenter` carries `skipRevalidate = true` (both rows: `w:304>`,
+    `w:stale>`).
+  * `lookup_skip_not_revalidating`: with `skipRevalidate` `cache.Get` never hands out a RevalidatingWriter
+    (`decide_skip_ne_revalidate`: the C08-c repair); `notFound_writer_done`: a NotFound writer row never
+    re-enters; hence `skip_activation_answers`: EVERY activation with `skipRevalidate = true` answers —
+    whatever disk, header, origin it sees (for the 304 re-entry the disk is the re-published one, and
+    the second lookup may find the re-published entry, another key's entry, or nothing).
+  * `reenter_then_done`, `cachingFunc_two`, `fuel_two_suffices`, `answered`, `step_fuel_irrelevant`,
+    `step_answered`: no hypothesis at all.
+  * `Step.reenterLocked` (304 for a writer with `diskWritesDisabled`): `reenterLocked_needs_no_fuel`,
+    `lockedReentry_found_answers` (it hangs only when `storage.Get` finds NOTHING), `row304_reenter`,
+    `row304_locked`, `reenter304_no_authorization`.
+  Structure facts kept from the first round:
+  A. `keysOf_client1Of`, `keysOf_client2Of`: both re-entries compute the SAME key list (full `Key` equality).
+  B. `storageGet_idempotent`.
+  C. `stale_reenter_finds_same_entry`: the `w:stale>` re-entry finds the entry it tried to revalidate.
+  D. WHEN the `w:304>` re-entry serves the entry as fresh rather than stale-marked:
+     `reenter304_fresh_when_settled` under `Settles304` (the re-published entry reads back fresh),
+     `settles304_of` (H1 codec fidelity `CodecFaithful` / `codecFaithful_of_representable`, H2 `now ≠ 0`,
+     stored header cacheable; H3 derived: `Lemmas.SysCacheTerm.doNotCache_merge304`).  Nothing
+     unconditional depends on these.
 
-  Counterexamples (namespace `Ex`), each proved on a concrete instance:
-  * `loops_two_values`, `fuel_two_suffices_unconditional_false`, `not_settles_two_values`,
-    `stored_doNotCache_reachable`: H1 is needed and FAILS IN A REACHABLE STATE — an origin that sends
-    `Cache-Control: max-age=0` and `Cache-Control: max-age=5` as two lines: every activation re-enters.
-  * `loops_at_time_zero`: H2 is needed (clock at Unix time 0).
-  * `three_activations_pipe`: a 304 that makes the re-published entry undecodable, two keys: three
-    activations.
+  The repaired defect, for the record (namespace `Ex`, section 3): an origin that sends
+  `Cache-Control: max-age=0` and `Cache-Control: max-age=5` as two lines.  All values are read, the
+  later number wins, the answer is stored / the 304 taken; the codec writes only the FIRST value
+  (C07-a), the entry reads back `max-age=0`, due at age 0.  BEFORE the repair (re-entry with
+  `skipRevalidate = false`) every activation revalidated, got 304, re-published and re-entered:
+  `cachingFunc … 3 …` had label `w:304>w:304>w:304>fuel` (300 contacts until the harness's watchdog;
+  reproduced on the real server).  Now: `Ex.two_values_answered`, label `w:304>f:hit:stale`.
+  Likewise the clock at 0 (`Ex.time_zero_answered`, was `w:304>w:304>w:304>fuel`) and a 304 that makes
+  the re-published entry undecodable with two keys (`Ex.pipe_answered`, was three activations).
 -/
 namespace Props.SysCacheTerm
 open Go Model Model.SysCache Props.SysCache Lemmas.SysCacheTerm
@@ -148,18 +153,19 @@ theorem cachingFill_label (cfg : Config) (d : Disk) (w : Writer) (now : Int) (st
 def afterLabels : List String := ["w:416", "w:304-closeerr", "w:uncacheable", "w:pass", "w:client304"]
 
 /-- what a re-entry looks like, as a predicate on the outcome of an activation (and which labels an
-    answer carries) -/
+    answer carries): ALWAYS `skipRevalidate = true` -/
 def ReenterShape (d : Disk) (now : Int) (reval : Option (Key × Stored × Int)) (w : Writer)
     (sg : Conditional.Surgery) (resp : Resp) : Step → Prop
   | .done a => a.label ∈ afterLabels ∨ a.label ∈ fillLabels
   | .reenter d' c' _ skip' _ tag =>
-    (skip' = false ∧ tag = "w:304>" ∧ c' = client2Of sg ∧ 0 < sg.used.length ∧ resp.status = 304 ∧
+    skip' = true ∧
+    ((tag = "w:304>" ∧ c' = client2Of sg ∧ 0 < sg.used.length ∧ resp.status = 304 ∧
         (getCacheControlDirectives resp.header).doNotCache = false ∧ w.diskWritesDisabled = false ∧
         republish d w now (some (Conditional.dropZeroContentLength resp.header)) = (d', true)) ∨
-    (skip' = true ∧ tag = "w:stale>" ∧ d' = d ∧ c' = client1Of sg ∧ staleIfErrorOf reval resp = true)
+     (tag = "w:stale>" ∧ d' = d ∧ c' = client1Of sg ∧ staleIfErrorOf reval resp = true))
   | .reenterLocked _ _ _ _ tag => tag = "w:304>"
 
-/-- the row `w:304`: a plain re-entry (`skipRevalidate = false`) comes from a writer that WROTE
+/-- the row `w:304`: a re-entry through `Step.reenter` comes from a writer that WROTE
     (`diskWritesDisabled = false`: the request carries no Authorization) and whose `Close` succeeded -/
 theorem row304_shape (d : Disk) (ai : Header) (cs : List Contact) (w : Writer) (sg : Conditional.Surgery)
     (resp : Resp) (now : Int) (reval : Option (Key × Stored × Int))
@@ -173,8 +179,7 @@ theorem row304_shape (d : Disk) (ai : Header) (cs : List Contact) (w : Writer) (
     split
     · left; simp [afterLabels]
     · rename_i d1 heq
-      left
-      exact ⟨rfl, rfl, rfl, h.1, h.2.1, by simpa using h.2.2, by simpa using hw, heq⟩
+      exact ⟨rfl, Or.inl ⟨rfl, rfl, h.1, h.2.1, by simpa using h.2.2, by simpa using hw, heq⟩⟩
 
 /-- the two rows of a writer activation that re-enter `cachingFunc`, read off `afterAnswer` -/
 theorem afterAnswer_shape (cfg : Config) (now : Int) (keys : List Key) (rr : Option Range.ReqRange) (d : Disk)
@@ -192,8 +197,7 @@ theorem afterAnswer_shape (cfg : Config) (now : Int) (keys : List Key) (rr : Opt
       · left; simp [afterLabels]
       · split
         · rename_i hs
-          right
-          exact ⟨rfl, rfl, rfl, rfl, hs⟩
+          exact ⟨rfl, Or.inr ⟨rfl, rfl, rfl, hs⟩⟩
         · repeat' first | split | (dsimp only; split)
           all_goals first
             | (left; simp [afterLabels]; done)
@@ -259,11 +263,40 @@ theorem stepOnce_done_of_lookup {cfg : Config} {origin : Bytes → Option Origin
 theorem reenterShape_none {d : Disk} {now : Int} {w : Writer} {rr : Option Range.ReqRange} {client : Header}
     {resp : Resp} {d' : Disk} {c' ai' : Header} {skip' : Bool} {cs' : List Contact} {tag : String}
     (h : ReenterShape d now none w (surgeryOf rr client none) resp (.reenter d' c' ai' skip' cs' tag)) : False := by
-  rcases h with ⟨_, _, _, hu, _⟩ | ⟨_, _, _, _, hs⟩
+  rcases h with ⟨_, ⟨_, _, hu, _⟩ | ⟨_, _, _, hs⟩⟩
   · revert hu
     simp [surgeryOf, Conditional.surgery]
   · revert hs
     simp [staleIfErrorOf]
+
+/-- an activation whose lookup finds nothing (`NotFoundWriter`) answers: it sends no validator of its
+    own (`used = ""`), so the 304 row does not apply, and there is no entry whose stale-if-error
+    allowance could -/
+theorem notFound_writer_done (cfg : Config) (origin : Bytes → Option Origin) (now : Int) (req : Request)
+    (keys : List Key) (rr : Option Range.ReqRange) (d : Disk) (client ai : Header) (cs : List Contact) :
+    ∃ a, writerRow cfg origin now req keys rr d client ai cs none = .done a := by
+  cases h : writerRow cfg origin now req keys rr d client ai cs none with
+  | done a => exact ⟨a, rfl⟩
+  | reenter d' c' ai' skip' cs' tag =>
+    obtain ⟨resp, _, hsh⟩ := writerRow_reenter h
+    exact absurd (reenterShape_none hsh) id
+  | reenterLocked d' c' ai' cs' tag =>
+    exfalso
+    unfold writerRow at h
+    simp only [] at h
+    split at h
+    · cases h
+    · rename_i resp _
+      unfold afterAnswer at h
+      split at h
+      · cases h
+      · dsimp only at h
+        split at h
+        · rename_i hc
+          revert hc
+          simp [surgeryOf, Conditional.surgery]
+        · repeat' first | split at h | (dsimp only at h; split at h)
+          all_goals cases h
 
 theorem lookup_writer_some {cfg : Config} {now : Int} {keys : List Key} {d d1 : Disk} {client : Header}
     {skip : Bool} {k : Key} {s : Stored} {age : Int}
@@ -322,179 +355,80 @@ theorem lookup_not_writer {cfg : Config} {now : Int} {keys : List Key} {d d1 : D
   · rename_i heq
     exact absurd heq (hd _ _)
 
-/-! ### B./C. the stale-if-error re-entry -/
+/-! ### every re-entry runs with `skipRevalidate`, and such an activation always answers -/
 
-/-- **C.** the re-entry after a failed revalidation (`w:stale>`, `skipRevalidate = true`) answers: it
-    computes the same keys, `storage.Get` finds the same entry on the disk the first lookup left, and
-    with `skipRevalidate` the decision is never "revalidate".  No hypothesis. -/
-theorem stale_reenter_then_done {cfg : Config} {origin : Bytes → Option Origin} {now : Int} {req : Request}
+/-- **every re-entry of `cachingFunc` carries `skipRevalidate = true`** (the row `w:stale>` always did;
+    the row `w:304>` does since the repair of the two-values loop) -/
+theorem reenter_skip_true {cfg : Config} {origin : Bytes → Option Origin} {now : Int} {req : Request}
     {d : Disk} {client ai : Header} {skip : Bool} {cs : List Contact} {d' : Disk} {c' ai' : Header}
-    {cs' : List Contact} {tag : String}
-    (h : stepOnce cfg origin now req d client ai skip cs = .reenter d' c' ai' true cs' tag) :
-    ∃ a, stepOnce cfg origin now req d' c' ai' true cs' = .done a := by
-  obtain ⟨_, d1, reval, hl, hw⟩ := stepOnce_reenter h
+    {skip' : Bool} {cs' : List Contact} {tag : String}
+    (h : stepOnce cfg origin now req d client ai skip cs = .reenter d' c' ai' skip' cs' tag) :
+    skip' = true := by
+  obtain ⟨_, d1, reval, _, hw⟩ := stepOnce_reenter h
   obtain ⟨resp, _, hsh⟩ := writerRow_reenter hw
-  cases reval with
-  | none => exact absurd (reenterShape_none hsh) id
-  | some r =>
-    obtain ⟨k, s, age⟩ := r
-    rcases hsh with ⟨hf, _⟩ | ⟨_, _, hd', hc', _⟩
-    · cases hf
-    · subst hd' hc'
-      have hg := lookup_writer_some hl
-      apply stepOnce_done_of_lookup
-      rw [keysOf_client1Of]
-      exact lookup_not_writer (storageGet_idem _ _ _ _ hg) (fun c a => decide_skip_ne_revalidate _ _ _ _ _ _ c a)
+  exact hsh.1
 
-/-! ### D. the 304 re-entry -/
+/-- with `skipRevalidate` `cache.Get` never hands out a RevalidatingWriter: the lookup is a panic, a
+    found row, or the NotFound writer -/
+theorem lookup_skip_not_revalidating (cfg : Config) (now : Int) (keys : List Key) (d : Disk) (client : Header)
+    (x : Key × Stored × Int) : (lookup cfg now keys d client true).2 ≠ .writer (some x) := by
+  unfold lookup
+  generalize storageGet d keys = r
+  obtain ⟨d2, g⟩ := r
+  cases g with
+  | panic site => intro h; cases h
+  | notFound => intro h; cases h
+  | found k s =>
+    dsimp only
+    split
+    · intro h; cases h
+    · intro h; cases h
+    · intro h; cases h
+    · intro h; cases h
+    · rename_i heq
+      exact absurd heq (decide_skip_ne_revalidate _ _ _ _ _ _ _ _)
 
-/-- the metadata `storageWriter.Close` re-publishes after a 304 with header `h304` at time `now`
-    (before the codec): `Revalidated := now`, headers merged -/
-def republishedMeta (m : Codec.Meta) (h304 : Header) (now : Int) : Codec.Meta :=
-  { m with revalidated := now,
-           respHeader := Conditional.merge304 m.respHeader (Conditional.dropZeroContentLength h304) }
+/-- **an activation with `skipRevalidate = true` answers** — on every disk, for every header, origin,
+    clock: its lookup is a found row (or a panic), or finds nothing, and a NotFound writer row never
+    re-enters -/
+theorem skip_activation_answers (cfg : Config) (origin : Bytes → Option Origin) (now : Int) (req : Request)
+    (d : Disk) (client ai : Header) (cs : List Contact) :
+    ∃ a, stepOnce cfg origin now req d client ai true cs = .done a := by
+  unfold stepOnce
+  split
+  · split <;> exact ⟨_, rfl⟩
+  · dsimp only
+    split
+    · exact ⟨_, rfl⟩
+    · exact ⟨_, rfl⟩
+    · exact ⟨_, rfl⟩
+    · rename_i d1 reval heq
+      cases reval with
+      | none => exact notFound_writer_done ..
+      | some x =>
+        exact absurd (by rw [heq]) (lookup_skip_not_revalidating cfg now (keysOf cfg req client) d client x)
 
-/-- `SetRevalidatedAndClose` succeeded: the cell of the writer held a decodable entry whose size is the
-    file's, and now holds the same body under the re-encoded, merged metadata -/
-theorem republish_ok {d d' : Disk} {w : Writer} {now : Int} {h304 : Header}
-    (hr : republish d w now (some (Conditional.dropZeroContentLength h304)) = (d', true)) :
-    ∃ f x m, d w.path = some f ∧ f.xattr = some x ∧ Codec.decode x = .ok (some m) ∧
-      (f.body.length : Int) = m.size ∧
-      d' = d.upd w.path (some { f with xattr := some (Codec.encode (republishedMeta m h304 now)) }) := by
-  unfold republish at hr
-  split at hr
-  · cases hr
-  · rename_i f hf
-    split at hr
-    · rename_i m hm
-      dsimp only at hr
-      split at hr
-      · cases hr
-      · rename_i hsz
-        split at hr
-        · cases hr
-        · cases hx : f.xattr with
-          | none => rw [hx] at hm; cases hm
-          | some x =>
-            rw [hx] at hm
-            simp only [Option.map_some, Option.some.injEq] at hm
-            refine ⟨f, x, m, hf, hx, hm, Decidable.of_not_not hsz, ?_⟩
-            cases hr
-            rfl
-    · cases hr
-
-/-- what the second lookup must make of the re-published entry: the codec gives metadata back
-    (H1), their size passes `storage.Get`'s check, and they are not due for revalidation at `now`
-    (H2, H3) -/
-def ReadsBackFresh (cfg : Config) (now : Int) (m' : Codec.Meta) : Prop :=
-  ∃ m'', Codec.decode (Codec.encode m') = .ok (some m'') ∧
-    ((m''.respHeader.get b!"content-length").length > 0 ∨ m''.size = m'.size) ∧
-    Freshness.shouldRevalidate ⟨m''.respHeader, m''.created, m''.revalidated⟩ now cfg.force = false
-
-theorem upd_ne {d : Disk} {p q : Bytes} {f : Option File} (h : q ≠ p) : d.upd p f q = d q := by
-  unfold Disk.upd; rw [if_neg h]
-
-theorem upd_self {d : Disk} {p : Bytes} {f : Option File} : d.upd p f p = f := by
-  unfold Disk.upd; rw [if_pos rfl]
-
-/-- **D.** the re-entry after a 304 (`w:304>`, `skipRevalidate = false`) answers, provided the
-    re-published entry reads back fresh -/
-theorem reenter304_then_done {cfg : Config} {origin : Bytes → Option Origin} {now : Int} {req : Request}
-    {d : Disk} {client ai : Header} {skip : Bool} {cs : List Contact} {d' : Disk} {c' ai' : Header}
-    {cs' : List Contact} {tag : String}
-    (h : stepOnce cfg origin now req d client ai skip cs = .reenter d' c' ai' false cs' tag)
-    (hS : ∀ d1 k s age resp,
-      lookup cfg now (keysOf cfg req client) d client skip = (d1, .writer (some (k, s, age))) →
-      ask cfg origin req cs (surgeryOf (Range.getRange client) client (some (k, s, age))).req = some resp →
-      resp.status = 304 → (getCacheControlDirectives resp.header).doNotCache = false →
-      ReadsBackFresh cfg now (republishedMeta s.meta resp.header now)) :
-    ∃ a, stepOnce cfg origin now req d' c' ai' false cs' = .done a := by
-  obtain ⟨_, d1, reval, hl, hw⟩ := stepOnce_reenter h
-  obtain ⟨resp, hask, hsh⟩ := writerRow_reenter hw
-  cases reval with
-  | none => exact absurd (reenterShape_none hsh) id
-  | some r =>
-    obtain ⟨k, s, age⟩ := r
-    rcases hsh with ⟨_, _, hc', _, h304, hdnc, _, hrep⟩ | ⟨hf, _⟩
-    · subst hc'
-      obtain ⟨m'', hdec, hsz, hfresh⟩ := hS d1 k s age resp hl hask h304 hdnc
-      have hg := lookup_writer_some hl
-      obtain ⟨pre, post, hkeys, hpre, hone⟩ := storageGet_found _ _ _ _ _ hg
-      obtain ⟨_, hcell, x0, hx0, hd0, _⟩ := getOne_some hone
-      have hwp : (writerOf (keysOf cfg req client) client (some (k, s, age))).path = keyString k := rfl
-      obtain ⟨f, x, m, hf, hx, hm, hfs, hd'⟩ := republish_ok hrep
-      rw [hwp] at hf hd'
-      rw [hcell] at hf
-      cases hf
-      rw [hx0] at hx
-      cases hx
-      rw [hd0] at hm
-      cases hm
-      -- the second lookup
-      apply stepOnce_done_of_lookup
-      rw [keysOf_client2Of, hkeys]
-      have hpre' : ∀ k0 ∈ pre, d' (keyString k0) = none := by
-        intro k0 hk0
-        have hne : keyString k0 ≠ keyString k := by
-          intro e
-          have := hpre k0 hk0
-          rw [e, hcell] at this
-          cases this
-        rw [hd', upd_ne hne]
-        exact hpre k0 hk0
-      have hone' : getOne d' k = (d', .ok (some ⟨m'', { s.file with xattr := some (Codec.encode (republishedMeta s.meta resp.header now)) }⟩)) := by
-        apply getOne_of_cell (x := Codec.encode (republishedMeta s.meta resp.header now))
-        · rw [hd', upd_self]
-        · rfl
-        · exact hdec
-        · rcases hsz with hsz | hsz
-          · exact Or.inl hsz
-          · right
-            rw [hsz]
-            exact hfs
-      have hg' : storageGet d' (pre ++ k :: post) = (d', .found k ⟨m'', { s.file with xattr := some (Codec.encode (republishedMeta s.meta resp.header now)) }⟩) := by
-        rw [storageGet_skip pre _ hpre', storageGet, hone']
-      exact lookup_not_writer hg' (fun c a => decide_fresh_ne_revalidate hfresh _ _ _ _ c a)
-    · cases hf
-
-/-! ### E. one re-entry is the last: two activations always suffice -/
-
-/-- **The hypothesis (H1–H3), on the activation that re-enters.**  Whenever this activation revalidates
-    a stored entry `s` and the origin answers the revalidation request with a cacheable 304, the
-    re-published metadata read back fresh (`ReadsBackFresh`; sufficient conditions:
-    `readsBackFresh_of_faithful`, `readsBackFresh_of_representable`, `settles304_of`).
-    (The former H4, "no Authorization", is gone: a writer with `diskWritesDisabled` does not re-enter
-    through `Step.reenter` but through `Step.reenterLocked`, which never recurses.) -/
-def Settles304 (cfg : Config) (origin : Bytes → Option Origin) (now : Int) (req : Request)
-    (d : Disk) (client : Header) (skip : Bool) (cs : List Contact) : Prop :=
-  ∀ d1 k s age resp,
-    lookup cfg now (keysOf cfg req client) d client skip = (d1, .writer (some (k, s, age))) →
-    ask cfg origin req cs (surgeryOf (Range.getRange client) client (some (k, s, age))).req = some resp →
-    resp.status = 304 → (getCacheControlDirectives resp.header).doNotCache = false →
-    ReadsBackFresh cfg now (republishedMeta s.meta resp.header now)
+/-! ### E. one re-entry is the last: two activations always suffice.  No hypothesis. -/
 
 /-- **one re-entry is the last.**  If an activation of `cachingFunc` re-enters, the re-entered
     activation answers. -/
 theorem reenter_then_done {cfg : Config} {origin : Bytes → Option Origin} {now : Int} {req : Request}
     {d : Disk} {client ai : Header} {skip : Bool} {cs : List Contact} {d' : Disk} {c' ai' : Header}
     {skip' : Bool} {cs' : List Contact} {tag : String}
-    (hS : Settles304 cfg origin now req d client skip cs)
     (h : stepOnce cfg origin now req d client ai skip cs = .reenter d' c' ai' skip' cs' tag) :
     ∃ a, stepOnce cfg origin now req d' c' ai' skip' cs' = .done a := by
-  cases skip' with
-  | true => exact stale_reenter_then_done h
-  | false => exact reenter304_then_done h hS
+  rw [reenter_skip_true h]
+  exact skip_activation_answers ..
 
 /-- what `cachingFunc` returns with fuel for two activations or more: the answer of the first
     activation, or the answer of the second one (a plain activation, or the activation that finds its
     own lock: `lockedReentry`, which does not recurse) with the re-entry's tag in front of its label -/
-theorem cachingFunc_two {cfg : Config} {origin : Bytes → Option Origin} {now : Int} {req : Request}
-    {d : Disk} {client ai : Header} {skip : Bool} {cs : List Contact}
-    (hS : Settles304 cfg origin now req d client skip cs) (n : Nat) :
+theorem cachingFunc_two (cfg : Config) (origin : Bytes → Option Origin) (now : Int) (req : Request)
+    (d : Disk) (client ai : Header) (skip : Bool) (cs : List Contact) (n : Nat) :
     (∃ a, stepOnce cfg origin now req d client ai skip cs = .done a ∧
         cachingFunc cfg origin now req (n + 2) d client ai skip cs = a) ∨
-    (∃ d' c' ai' skip' cs' tag a, stepOnce cfg origin now req d client ai skip cs = .reenter d' c' ai' skip' cs' tag ∧
-        stepOnce cfg origin now req d' c' ai' skip' cs' = .done a ∧
+    (∃ d' c' ai' cs' tag a, stepOnce cfg origin now req d client ai skip cs = .reenter d' c' ai' true cs' tag ∧
+        stepOnce cfg origin now req d' c' ai' true cs' = .done a ∧
         cachingFunc cfg origin now req (n + 2) d client ai skip cs = { a with label := tag ++ a.label }) ∨
     (∃ d' c' ai' cs' tag, stepOnce cfg origin now req d client ai skip cs = .reenterLocked d' c' ai' cs' tag ∧
         cachingFunc cfg origin now req (n + 2) d client ai skip cs =
@@ -507,8 +441,10 @@ theorem cachingFunc_two {cfg : Config} {origin : Bytes → Option Origin} {now :
     rw [cachingFunc, hst]
   | reenter d' c' ai' skip' cs' tag =>
     right; left
-    obtain ⟨a, ha⟩ := reenter_then_done hS hst
-    refine ⟨d', c', ai', skip', cs', tag, a, rfl, ha, ?_⟩
+    have hs := reenter_skip_true hst
+    subst hs
+    obtain ⟨a, ha⟩ := reenter_then_done hst
+    refine ⟨d', c', ai', cs', tag, a, rfl, ha, ?_⟩
     rw [cachingFunc, hst]
     dsimp only
     rw [cachingFunc, ha]
@@ -529,9 +465,8 @@ theorem reenterLocked_needs_no_fuel {cfg : Config} {origin : Bytes → Option Or
   rw [cachingFunc, h]
 
 /-- **two activations always suffice**: more fuel changes nothing -/
-theorem fuel_two_suffices {cfg : Config} {origin : Bytes → Option Origin} {now : Int} {req : Request}
-    {d : Disk} {client ai : Header} {skip : Bool} {cs : List Contact}
-    (hS : Settles304 cfg origin now req d client skip cs) {fuel : Nat} (h2 : 2 ≤ fuel) :
+theorem fuel_two_suffices (cfg : Config) (origin : Bytes → Option Origin) (now : Int) (req : Request)
+    (d : Disk) (client ai : Header) (skip : Bool) (cs : List Contact) {fuel : Nat} (h2 : 2 ≤ fuel) :
     cachingFunc cfg origin now req fuel d client ai skip cs =
       cachingFunc cfg origin now req 2 d client ai skip cs := by
   obtain ⟨n, rfl⟩ : ∃ n, fuel = n + 2 := ⟨fuel - 2, by omega⟩
@@ -539,7 +474,7 @@ theorem fuel_two_suffices {cfg : Config} {origin : Bytes → Option Origin} {now
   | done a =>
     rw [cachingFunc, hst, cachingFunc, hst]
   | reenter d' c' ai' skip' cs' tag =>
-    obtain ⟨a, ha⟩ := reenter_then_done hS hst
+    obtain ⟨a, ha⟩ := reenter_then_done hst
     rw [cachingFunc, hst, cachingFunc, hst]
     dsimp only
     rw [cachingFunc, ha, cachingFunc, ha]
@@ -592,7 +527,7 @@ theorem writerRow_labelOK (cfg : Config) (origin : Bytes → Option Origin) (now
       intro h
       simp only [ReenterShape] at h
       simp only [LabelOK]
-      rcases h with ⟨_, h, _⟩ | ⟨_, h, _⟩
+      rcases h with ⟨_, ⟨h, _⟩ | ⟨h, _⟩⟩
       · exact Or.inl h
       · exact Or.inr h
     | reenterLocked d' c' ai' cs' tag =>
@@ -656,26 +591,26 @@ theorem not_outOfFuel_append {tag l : String} (h : ¬ OutOfFuel l) (hl : 4 ≤ l
   exact List.suffix_of_suffix_length_le hs (List.suffix_append _ _) hl
 
 /-- **every request is answered**: with fuel for two activations the label never ends in `fuel` -/
-theorem answered {cfg : Config} {origin : Bytes → Option Origin} {now : Int} {req : Request}
-    {d : Disk} {client ai : Header} {skip : Bool} {cs : List Contact}
-    (hS : Settles304 cfg origin now req d client skip cs) {fuel : Nat} (h2 : 2 ≤ fuel) :
+theorem answered (cfg : Config) (origin : Bytes → Option Origin) (now : Int) (req : Request)
+    (d : Disk) (client ai : Header) (skip : Bool) (cs : List Contact) {fuel : Nat} (h2 : 2 ≤ fuel) :
     ¬ OutOfFuel (cachingFunc cfg origin now req fuel d client ai skip cs).label := by
   obtain ⟨n, rfl⟩ : ∃ n, fuel = n + 2 := ⟨fuel - 2, by omega⟩
-  rcases cachingFunc_two (ai := ai) hS n with ⟨a, h1, e⟩ | ⟨d', c', ai', skip', cs', tag, a, h1, h2', e⟩ |
-    ⟨d', c', ai', cs', tag, h1, e⟩
+  rcases cachingFunc_two cfg origin now req d client ai skip cs n with
+    ⟨a, h1, e⟩ | ⟨d', c', ai', cs', tag, a, h1, h2', e⟩ | ⟨d', c', ai', cs', tag, h1, e⟩
   · rw [e]
     have := stepOnce_labelOK cfg origin now req d client ai skip cs
     rw [h1] at this
     exact (doneLabels_not_outOfFuel _ this).1
   · rw [e]
-    have := stepOnce_labelOK cfg origin now req d' c' ai' skip' cs'
+    have := stepOnce_labelOK cfg origin now req d' c' ai' true cs'
     rw [h2'] at this
     exact not_outOfFuel_append (doneLabels_not_outOfFuel _ this).1 (doneLabels_not_outOfFuel _ this).2
   · rw [e]
     have := lockedReentry_label cfg origin now req d' c' ai' cs'
     exact not_outOfFuel_append (doneLabels_not_outOfFuel _ this).1 (doneLabels_not_outOfFuel _ this).2
 
-/-- the converse, for orientation: without fuel there is no answer -/
+/-- the converse, for orientation: without fuel there is no answer (and one unit is not always enough:
+    `Ex.one_unit_not_enough`) -/
 example (cfg : Config) (origin : Bytes → Option Origin) (now : Int) (req : Request) (d : Disk)
     (client ai : Header) (skip : Bool) (cs : List Contact) :
     OutOfFuel (cachingFunc cfg origin now req 0 d client ai skip cs).label := by
@@ -683,25 +618,315 @@ example (cfg : Config) (origin : Bytes → Option Origin) (now : Int) (req : Req
 
 /-! ### the corollary for `step`: the driver's fuel is never used up -/
 
-/-- `Settles304` for a request as `step` starts it -/
-def SettlesReq (cfg : Config) (s : State) (r : Request) : Prop :=
-  Settles304 cfg s.origin s.now r s.disk r.header false []
-
-theorem step_fuel_irrelevant (cfg : Config) (s : State) (r : Request) (hS : SettlesReq cfg s r) :
+theorem step_fuel_irrelevant (cfg : Config) (s : State) (r : Request) :
     step cfg s (.req r) =
       (let a := cachingFunc cfg s.origin s.now r 2 s.disk r.header [] false []
        ({ s with disk := a.disk }, some (obsOf r a))) := by
   unfold step
   dsimp only
-  rw [fuel_two_suffices hS (by decide : 2 ≤ defaultFuel)]
+  rw [fuel_two_suffices _ _ _ _ _ _ _ _ _ (by decide : 2 ≤ defaultFuel)]
 
-theorem step_answered (cfg : Config) (s : State) (r : Request) (hS : SettlesReq cfg s r) :
+/-- **`step` never runs out of fuel**: for every configuration, state and request -/
+theorem step_answered (cfg : Config) (s : State) (r : Request) :
     ∀ o, (step cfg s (.req r)).2 = some o → ¬ OutOfFuel o.label := by
   intro o ho
   unfold step at ho
   dsimp only at ho
   cases ho
-  exact answered hS (by decide : 2 ≤ defaultFuel)
+  exact answered _ _ _ _ _ _ _ _ _ (by decide : 2 ≤ defaultFuel)
+
+/-- … and so does every observation of a history -/
+theorem run_answered (cfg : Config) : ∀ (ops : List Op) (s : State), ∀ o ∈ run cfg s ops, ¬ OutOfFuel o.label
+  | [], _, o, h => by simp [run] at h
+  | op :: ops, s, o, h => by
+    unfold run at h
+    split at h
+    · rename_i s' o' heq
+      rcases List.mem_cons.1 h with rfl | h
+      · cases op with
+        | req r => exact step_answered cfg s r o (by rw [heq])
+        | tick dt => simp [step] at heq
+        | setOrigin p oo => simp [step] at heq
+      · exact run_answered cfg ops s' o h
+    · rename_i s' heq
+      exact run_answered cfg ops s' o h
+
+/-! ### the arm `Step.reenterLocked` -/
+
+theorem get_skip_ne_revalidating (lock : Bool) (m : Freshness.Entry) (now : Int) (force : Nat) (inm ims : Bytes)
+    (suffix : Option Bytes) (a : Int) :
+    Freshness.get lock m now force true inm ims suffix ≠ .ok (.revalidatingReader a) ∧
+    Freshness.get lock m now force true inm ims suffix ≠ .ok (.revalidatingWriter a) := by
+  cases h : Freshness.shouldRevalidate m now force with
+  | false =>
+    rw [Freshness.get_of_not_stale lock true inm ims suffix h]
+    cases Freshness.clientCheck suffix inm ims m.header with
+    | panic s => constructor <;> (intro hh; cases hh)
+    | ok b => cases b <;> constructor <;> (intro hh; cases hh)
+  | true =>
+    rw [Freshness.get_of_stale lock true inm ims suffix h]
+    simp
+
+theorem foundHit_hang (cfg : Config) (s : Stored) (age : Int) (stale : Bool) (ai : Header)
+    (rr : Option Range.ReqRange) : (foundHit cfg s age stale ai rr).1.hang = false := by
+  unfold foundHit
+  repeat' first | split | (dsimp only; split)
+  all_goals rfl
+
+theorem plainOut_hang (cfg : Config) (resp : Resp) (ai : Header) (so : Option Nat) :
+    (plainOut cfg resp ai so).hang = false := by
+  unfold plainOut
+  dsimp only
+  split <;> rfl
+
+/-- **the activation that finds its own lock never hangs for a FOUND entry** (since the repair it runs
+    with `skipRevalidate`: `cache.Get` serves the entry, stale-marked if need be, instead of waiting for
+    the key): it hangs (`g:selfwait`) only when `storage.Get` finds nothing -/
+theorem lockedReentry_found_answers {cfg : Config} {origin : Bytes → Option Origin} {now : Int} {req : Request}
+    {d : Disk} {client ai : Header} {cs : List Contact}
+    (h : (lockedReentry cfg origin now req d client ai cs).out.hang = true) :
+    (storageGet d (keysOf cfg req client)).2 = .notFound := by
+  revert h
+  unfold lockedReentry
+  dsimp only
+  generalize storageGet d (keysOf cfg req client) = r
+  obtain ⟨d2, g⟩ := r
+  cases g with
+  | panic site => intro h; cases h
+  | notFound => intro _; rfl
+  | found k s =>
+    dsimp only
+    split
+    · intro h; cases h
+    · intro h; cases h
+    · intro h; exact absurd h (by rw [foundHit_hang]; decide)
+    · intro h; exact absurd h (by rw [foundHit_hang]; decide)
+    · split
+      · split
+        · intro h; cases h
+        · intro h; exact absurd h (by rw [plainOut_hang]; decide)
+      · intro h; cases h
+    · rename_i heq; exact absurd heq (get_skip_ne_revalidating _ _ _ _ _ _ _ _).1
+    · rename_i heq; exact absurd heq (get_skip_ne_revalidating _ _ _ _ _ _ _ _).2
+
+/-- `Step.reenter` out of the row `w:304` comes from a writer with `diskWritesDisabled = false` whose
+    `Close` succeeded; it carries `skipRevalidate = true` -/
+theorem row304_reenter {d : Disk} {ai : Header} {cs : List Contact} {w : Writer} {sg : Conditional.Surgery}
+    {resp : Resp} {now : Int} {d' : Disk} {c' ai' : Header} {skip' : Bool} {cs' : List Contact} {tag : String}
+    (h : row304 d ai cs w sg resp now = .reenter d' c' ai' skip' cs' tag) :
+    w.diskWritesDisabled = false ∧ skip' = true ∧
+      republish d w now (some (Conditional.dropZeroContentLength resp.header)) = (d', true) := by
+  unfold row304 at h
+  dsimp only at h
+  split at h
+  · cases h
+  · rename_i hw
+    split at h
+    · cases h
+    · rename_i d1 heq
+      cases h
+      exact ⟨by simpa using hw, rfl, heq⟩
+
+/-- … and a writer with `diskWritesDisabled` leaves the row through `Step.reenterLocked`, with the disk
+    untouched -/
+theorem row304_locked {d : Disk} {ai : Header} {cs : List Contact} {w : Writer} {sg : Conditional.Surgery}
+    {resp : Resp} {now : Int} (hw : w.diskWritesDisabled = true) :
+    ∃ c' ai', row304 d ai cs w sg resp now = .reenterLocked d c' ai' cs "w:304>" := by
+  unfold row304
+  dsimp only
+  rw [if_pos hw]
+  exact ⟨_, _, rfl⟩
+
+/-- at the level of the request: a `w:304>` re-entry through `Step.reenter` means the request carried
+    no `Authorization` -/
+theorem reenter304_no_authorization {cfg : Config} {origin : Bytes → Option Origin} {now : Int} {req : Request}
+    {d : Disk} {client ai : Header} {skip : Bool} {cs : List Contact} {d' : Disk} {c' ai' : Header}
+    {skip' : Bool} {cs' : List Contact}
+    (h : stepOnce cfg origin now req d client ai skip cs = .reenter d' c' ai' skip' cs' "w:304>") :
+    client.get b!"authorization" = [] := by
+  obtain ⟨_, d1, reval, _, hw⟩ := stepOnce_reenter h
+  obtain ⟨resp, _, hsh⟩ := writerRow_reenter hw
+  rcases hsh with ⟨_, ⟨_, _, _, _, _, hwd, _⟩ | ⟨ht, _⟩⟩
+  · simp only [writerOf, decide_eq_false_iff_not, Nat.not_lt, Nat.le_zero, List.length_eq_zero_iff] at hwd
+    exact hwd
+  · exact absurd ht (by decide)
+
+/-! ### B. `storage.Get` is idempotent.  C. the `w:stale>` re-entry finds the same entry -/
+
+/-- **B.** a second `storage.Get` with the same keys on the disk the first one left changes nothing
+    and returns the same result (files are only removed; a key that yielded nothing has an empty
+    cell afterwards) -/
+theorem storageGet_idempotent (keys : List Key) (d d' : Disk) (r : GetRes)
+    (h : storageGet d keys = (d', r)) : storageGet d' keys = (d', r) :=
+  storageGet_idem keys d d' r h
+
+/-- **C.** the re-entry after a failed revalidation (`w:stale>`) computes the same keys and `storage.Get`
+    finds, on the disk the first lookup left, the very entry the activation tried to revalidate -/
+theorem stale_reenter_finds_same_entry {cfg : Config} {origin : Bytes → Option Origin} {now : Int} {req : Request}
+    {d : Disk} {client ai : Header} {skip : Bool} {cs : List Contact} {d' : Disk} {c' ai' : Header}
+    {skip' : Bool} {cs' : List Contact}
+    (h : stepOnce cfg origin now req d client ai skip cs = .reenter d' c' ai' skip' cs' "w:stale>") :
+    ∃ k s, storageGet d (keysOf cfg req client) = (d', .found k s) ∧
+      storageGet d' (keysOf cfg req c') = (d', .found k s) := by
+  obtain ⟨_, d1, reval, hl, hw⟩ := stepOnce_reenter h
+  obtain ⟨resp, _, hsh⟩ := writerRow_reenter hw
+  cases reval with
+  | none => exact absurd (reenterShape_none hsh) id
+  | some r =>
+    obtain ⟨k, s, age⟩ := r
+    rcases hsh with ⟨_, ⟨ht, _⟩ | ⟨_, hd', hc', _⟩⟩
+    · exact absurd ht (by decide)
+    · subst hd' hc'
+      have hg := lookup_writer_some hl
+      refine ⟨k, s, hg, ?_⟩
+      rw [keysOf_client1Of]
+      exact storageGet_idem _ _ _ _ hg
+
+/-! ### D. when the `w:304>` re-entry serves the entry as FRESH (not stale-marked) -/
+
+/-- the metadata `storageWriter.Close` re-publishes after a 304 with header `h304` at time `now`
+    (before the codec): `Revalidated := now`, headers merged -/
+def republishedMeta (m : Codec.Meta) (h304 : Header) (now : Int) : Codec.Meta :=
+  { m with revalidated := now,
+           respHeader := Conditional.merge304 m.respHeader (Conditional.dropZeroContentLength h304) }
+
+/-- `SetRevalidatedAndClose` succeeded: the cell of the writer held a decodable entry whose size is the
+    file's, and now holds the same body under the re-encoded, merged metadata -/
+theorem republish_ok {d d' : Disk} {w : Writer} {now : Int} {h304 : Header}
+    (hr : republish d w now (some (Conditional.dropZeroContentLength h304)) = (d', true)) :
+    ∃ f x m, d w.path = some f ∧ f.xattr = some x ∧ Codec.decode x = .ok (some m) ∧
+      (f.body.length : Int) = m.size ∧
+      d' = d.upd w.path (some { f with xattr := some (Codec.encode (republishedMeta m h304 now)) }) := by
+  unfold republish at hr
+  split at hr
+  · cases hr
+  · rename_i f hf
+    split at hr
+    · rename_i m hm
+      dsimp only at hr
+      split at hr
+      · cases hr
+      · rename_i hsz
+        split at hr
+        · cases hr
+        · cases hx : f.xattr with
+          | none => rw [hx] at hm; cases hm
+          | some x =>
+            rw [hx] at hm
+            simp only [Option.map_some, Option.some.injEq] at hm
+            refine ⟨f, x, m, hf, hx, hm, Decidable.of_not_not hsz, ?_⟩
+            cases hr
+            rfl
+    · cases hr
+
+/-- what the second lookup must make of the re-published entry: the codec gives metadata back
+    (H1), their size passes `storage.Get`'s check, and they are not due for revalidation at `now`
+    (H2, H3) -/
+def ReadsBackFresh (cfg : Config) (now : Int) (m' : Codec.Meta) : Prop :=
+  ∃ m'', Codec.decode (Codec.encode m') = .ok (some m'') ∧
+    ((m''.respHeader.get b!"content-length").length > 0 ∨ m''.size = m'.size) ∧
+    Freshness.shouldRevalidate ⟨m''.respHeader, m''.created, m''.revalidated⟩ now cfg.force = false
+
+theorem upd_ne {d : Disk} {p q : Bytes} {f : Option File} (h : q ≠ p) : d.upd p f q = d q := by
+  unfold Disk.upd; rw [if_neg h]
+
+theorem upd_self {d : Disk} {p : Bytes} {f : Option File} : d.upd p f p = f := by
+  unfold Disk.upd; rw [if_pos rfl]
+
+/-- a lookup that finds an entry which is not due for revalidation does not mark it stale -/
+theorem lookup_not_stale_of_fresh {cfg : Config} {now : Int} {keys : List Key} {d d1 : Disk} {client : Header}
+    {skip : Bool} {k : Key} {s : Stored} (hg : storageGet d keys = (d1, .found k s))
+    (hf : Freshness.shouldRevalidate (entryOf s) now cfg.force = false) :
+    (∀ reval, (lookup cfg now keys d client skip).2 ≠ .writer reval) ∧
+    (∀ s' age, (lookup cfg now keys d client skip).2 ≠ .serve s' age true) := by
+  unfold lookup
+  rw [hg]
+  dsimp only
+  rw [Freshness.decide_of_not_stale skip _ _ _ hf]
+  cases Freshness.clientCheck cfg.sfx (client.get b!"if-none-match") (client.get b!"if-modified-since")
+      (entryOf s).header with
+  | panic site =>
+    constructor
+    · intro _ h; cases h
+    · intro _ _ h; cases h
+  | ok b =>
+    cases b
+    · constructor
+      · intro _ h; cases h
+      · intro _ _ h; cases h
+    · constructor
+      · intro _ h; cases h
+      · intro _ _ h; cases h
+
+/-- **The hypothesis (H1–H3), on the activation that re-enters.**  Whenever this activation revalidates
+    a stored entry `s` and the origin answers the revalidation request with a cacheable 304, the
+    re-published metadata read back fresh (`ReadsBackFresh`; sufficient conditions:
+    `readsBackFresh_of_faithful`, `codecFaithful_of_representable`, `settles304_of`).  Since the repair
+    this is no longer needed for termination; it says when the re-entry's answer is NOT stale-marked. -/
+def Settles304 (cfg : Config) (origin : Bytes → Option Origin) (now : Int) (req : Request)
+    (d : Disk) (client : Header) (skip : Bool) (cs : List Contact) : Prop :=
+  ∀ d1 k s age resp,
+    lookup cfg now (keysOf cfg req client) d client skip = (d1, .writer (some (k, s, age))) →
+    ask cfg origin req cs (surgeryOf (Range.getRange client) client (some (k, s, age))).req = some resp →
+    resp.status = 304 → (getCacheControlDirectives resp.header).doNotCache = false →
+    ReadsBackFresh cfg now (republishedMeta s.meta resp.header now)
+
+/-- **D.** under `Settles304` the re-entry after a 304 finds the re-published entry and serves it as
+    FRESH: its lookup is a found row (`f:304`, or a hit with `IsStale = false`, or the ETag-comparison
+    panic) — neither a writer row nor a stale-marked hit -/
+theorem reenter304_fresh_when_settled {cfg : Config} {origin : Bytes → Option Origin} {now : Int} {req : Request}
+    {d : Disk} {client ai : Header} {skip : Bool} {cs : List Contact} {d' : Disk} {c' ai' : Header}
+    {skip' : Bool} {cs' : List Contact}
+    (hS : Settles304 cfg origin now req d client skip cs)
+    (h : stepOnce cfg origin now req d client ai skip cs = .reenter d' c' ai' skip' cs' "w:304>") :
+    (∀ reval, (lookup cfg now (keysOf cfg req c') d' c' skip').2 ≠ .writer reval) ∧
+    (∀ s' age, (lookup cfg now (keysOf cfg req c') d' c' skip').2 ≠ .serve s' age true) := by
+  obtain ⟨_, d1, reval, hl, hw⟩ := stepOnce_reenter h
+  obtain ⟨resp, hask, hsh⟩ := writerRow_reenter hw
+  cases reval with
+  | none => exact absurd (reenterShape_none hsh) id
+  | some r =>
+    obtain ⟨k, s, age⟩ := r
+    rcases hsh with ⟨_, ⟨_, hc', _, h304, hdnc, _, hrep⟩ | ⟨ht, _⟩⟩
+    · subst hc'
+      obtain ⟨m'', hdec, hsz, hfresh⟩ := hS d1 k s age resp hl hask h304 hdnc
+      have hg := lookup_writer_some hl
+      obtain ⟨pre, post, hkeys, hpre, hone⟩ := storageGet_found _ _ _ _ _ hg
+      obtain ⟨_, hcell, x0, hx0, hd0, _⟩ := getOne_some hone
+      have hwp : (writerOf (keysOf cfg req client) client (some (k, s, age))).path = keyString k := rfl
+      obtain ⟨f, x, m, hf, hx, hm, hfs, hd'⟩ := republish_ok hrep
+      rw [hwp] at hf hd'
+      rw [hcell] at hf
+      cases hf
+      rw [hx0] at hx
+      cases hx
+      rw [hd0] at hm
+      cases hm
+      -- the second lookup
+      rw [keysOf_client2Of, hkeys]
+      have hpre' : ∀ k0 ∈ pre, d' (keyString k0) = none := by
+        intro k0 hk0
+        have hne : keyString k0 ≠ keyString k := by
+          intro e
+          have := hpre k0 hk0
+          rw [e, hcell] at this
+          cases this
+        rw [hd', upd_ne hne]
+        exact hpre k0 hk0
+      have hone' : getOne d' k = (d', .ok (some ⟨m'', { s.file with xattr := some (Codec.encode (republishedMeta s.meta resp.header now)) }⟩)) := by
+        apply getOne_of_cell (x := Codec.encode (republishedMeta s.meta resp.header now))
+        · rw [hd', upd_self]
+        · rfl
+        · exact hdec
+        · rcases hsz with hsz | hsz
+          · exact Or.inl hsz
+          · right
+            rw [hsz]
+            exact hfs
+      have hg' : storageGet d' (pre ++ k :: post) = (d', .found k ⟨m'', { s.file with xattr := some (Codec.encode (republishedMeta s.meta resp.header now)) }⟩) := by
+        rw [storageGet_skip pre _ hpre', storageGet, hone']
+      exact lookup_not_stale_of_fresh hg' hfresh
+    · exact absurd ht (by decide)
 
 /-! ### sufficient conditions for the hypothesis: H1 (codec fidelity), H2 (`now ≠ 0`), H3 (directives) -/
 
@@ -783,160 +1008,7 @@ theorem settles304_of {cfg : Config} {origin : Bytes → Option Origin} {now : I
   obtain ⟨hst, hcf⟩ := hE d1 k s age resp hl hask h304 hdnc
   exact readsBackFresh_of_faithful hcf rfl h2 (doNotCache_merge304 (WFHeader.ask hask) hst hdnc)
 
-/-! ### the 304 row re-enters plainly only when the writer wrote -/
-
-/-- `Step.reenter … false …` comes from a writer with `diskWritesDisabled = false` -/
-theorem row304_reenter {d : Disk} {ai : Header} {cs : List Contact} {w : Writer} {sg : Conditional.Surgery}
-    {resp : Resp} {now : Int} {d' : Disk} {c' ai' : Header} {skip' : Bool} {cs' : List Contact} {tag : String}
-    (h : row304 d ai cs w sg resp now = .reenter d' c' ai' skip' cs' tag) :
-    w.diskWritesDisabled = false ∧ skip' = false ∧
-      republish d w now (some (Conditional.dropZeroContentLength resp.header)) = (d', true) := by
-  unfold row304 at h
-  dsimp only at h
-  split at h
-  · cases h
-  · rename_i hw
-    split at h
-    · cases h
-    · rename_i d1 heq
-      cases h
-      exact ⟨by simpa using hw, rfl, heq⟩
-
-/-- … and a writer with `diskWritesDisabled` leaves the row through `Step.reenterLocked`, with the disk
-    untouched -/
-theorem row304_locked {d : Disk} {ai : Header} {cs : List Contact} {w : Writer} {sg : Conditional.Surgery}
-    {resp : Resp} {now : Int} (hw : w.diskWritesDisabled = true) :
-    ∃ c' ai', row304 d ai cs w sg resp now = .reenterLocked d c' ai' cs "w:304>" := by
-  unfold row304
-  dsimp only
-  rw [if_pos hw]
-  exact ⟨_, _, rfl⟩
-
-/-- at the level of the request: a plain 304 re-entry means the request carried no `Authorization` -/
-theorem reenter304_no_authorization {cfg : Config} {origin : Bytes → Option Origin} {now : Int} {req : Request}
-    {d : Disk} {client ai : Header} {skip : Bool} {cs : List Contact} {d' : Disk} {c' ai' : Header}
-    {cs' : List Contact} {tag : String}
-    (h : stepOnce cfg origin now req d client ai skip cs = .reenter d' c' ai' false cs' tag) :
-    client.get b!"authorization" = [] := by
-  obtain ⟨_, d1, reval, _, hw⟩ := stepOnce_reenter h
-  obtain ⟨resp, _, hsh⟩ := writerRow_reenter hw
-  rcases hsh with ⟨_, _, _, _, _, _, hwd, _⟩ | ⟨hf, _⟩
-  · simp only [writerOf, decide_eq_false_iff_not, Nat.not_lt, Nat.le_zero, List.length_eq_zero_iff] at hwd
-    exact hwd
-  · cases hf
-
-/-! ### B. `storage.Get` is idempotent; a NotFound writer row never re-enters -/
-
-/-- **B.** a second `storage.Get` with the same keys on the disk the first one left changes nothing
-    and returns the same result (files are only removed; a key that yielded nothing has an empty
-    cell afterwards) -/
-theorem storageGet_idempotent (keys : List Key) (d d' : Disk) (r : GetRes)
-    (h : storageGet d keys = (d', r)) : storageGet d' keys = (d', r) :=
-  storageGet_idem keys d d' r h
-
-/-- an activation whose lookup finds nothing (`NotFoundWriter`) answers: it sends no validator of its
-    own (`used = ""`), so the 304 row does not apply, and there is no entry whose stale-if-error
-    allowance could -/
-theorem notFound_writer_done (cfg : Config) (origin : Bytes → Option Origin) (now : Int) (req : Request)
-    (keys : List Key) (rr : Option Range.ReqRange) (d : Disk) (client ai : Header) (cs : List Contact) :
-    ∃ a, writerRow cfg origin now req keys rr d client ai cs none = .done a := by
-  cases h : writerRow cfg origin now req keys rr d client ai cs none with
-  | done a => exact ⟨a, rfl⟩
-  | reenter d' c' ai' skip' cs' tag =>
-    obtain ⟨resp, _, hsh⟩ := writerRow_reenter h
-    exact absurd (reenterShape_none hsh) id
-  | reenterLocked d' c' ai' cs' tag =>
-    exfalso
-    unfold writerRow at h
-    simp only [] at h
-    split at h
-    · cases h
-    · rename_i resp _
-      unfold afterAnswer at h
-      split at h
-      · cases h
-      · dsimp only at h
-        split at h
-        · rename_i hc
-          revert hc
-          simp [surgeryOf, Conditional.surgery]
-        · repeat' first | split at h | (dsimp only at h; split at h)
-          all_goals cases h
-
-/-! ### without any hypothesis: the harness's watchdog bounds the re-entries
-
-  Every re-entry has contacted the origin once, and the performer refuses a contact when
-  `contactLimit` were made (`ask = none` ⇒ the row `w:err`).  So in the MODEL (not in the code, which
-  has no such limit) a request is answered within `contactLimit + 1` activations: with the default
-  configuration the label `fuel` is never seen, whatever the disk and the origin. -/
-
-/-- the label ends with the label of an answering activation -/
-def EndsAnswered (l : String) : Prop := ∃ pre l0, l = pre ++ l0 ∧ l0 ∈ doneLabels
-
-theorem EndsAnswered.not_outOfFuel {l : String} (h : EndsAnswered l) : ¬ OutOfFuel l := by
-  obtain ⟨pre, l0, rfl, h0⟩ := h
-  exact not_outOfFuel_append (doneLabels_not_outOfFuel _ h0).1 (doneLabels_not_outOfFuel _ h0).2
-
-/-- a re-entry has logged one more contact, below the limit -/
-theorem reenter_contacts {cfg : Config} {origin : Bytes → Option Origin} {now : Int} {req : Request}
-    {d : Disk} {client ai : Header} {skip : Bool} {cs : List Contact} {d' : Disk} {c' ai' : Header}
-    {skip' : Bool} {cs' : List Contact} {tag : String}
-    (h : stepOnce cfg origin now req d client ai skip cs = .reenter d' c' ai' skip' cs' tag) :
-    cs.length < cfg.contactLimit ∧ cs'.length = cs.length + 1 := by
-  obtain ⟨_, d1, reval, _, hw⟩ := stepOnce_reenter h
-  obtain ⟨resp, hask, _⟩ := writerRow_reenter hw
-  have hlt : cs.length < cfg.contactLimit := by
-    unfold ask at hask
-    split at hask
-    · cases hask
-    · omega
-  refine ⟨hlt, ?_⟩
-  have hc := writerRow_contacts cfg origin now req (keysOf cfg req client) (Range.getRange client) d1 client ai cs reval
-  rw [hw] at hc
-  simp only [Step.contacts] at hc
-  rw [hc, logged_of_lt _ hlt]
-  simp
-
-theorem answered_by_watchdog (cfg : Config) (origin : Bytes → Option Origin) (now : Int) (req : Request) :
-    ∀ (fuel : Nat) (d : Disk) (client ai : Header) (skip : Bool) (cs : List Contact),
-      cfg.contactLimit - cs.length < fuel →
-      EndsAnswered (cachingFunc cfg origin now req fuel d client ai skip cs).label := by
-  intro fuel
-  induction fuel with
-  | zero => intro d client ai skip cs h; omega
-  | succ n ih =>
-    intro d client ai skip cs hf
-    have hl := stepOnce_labelOK cfg origin now req d client ai skip cs
-    rw [cachingFunc]
-    cases hst : stepOnce cfg origin now req d client ai skip cs with
-    | done a =>
-      rw [hst] at hl
-      exact ⟨"", a.label, by simp, hl⟩
-    | reenter d' c' ai' skip' cs' tag =>
-      obtain ⟨h1, h2⟩ := reenter_contacts hst
-      obtain ⟨pre, l0, e, h0⟩ := ih d' c' ai' skip' cs' (by omega)
-      dsimp only
-      exact ⟨tag ++ pre, l0, by rw [e, String.append_assoc], h0⟩
-    | reenterLocked d' c' ai' cs' tag =>
-      dsimp only
-      exact ⟨tag, _, rfl, lockedReentry_label ..⟩
-
-/-- **`step` never runs out of fuel** when the watchdog's limit is below the driver's fuel (the default:
-    300 + 2 ≤ 400), for every state and request — no hypothesis on disk, origin, clock -/
-theorem step_answered_by_watchdog (cfg : Config) (hc : cfg.contactLimit + 2 ≤ defaultFuel) (s : State) (r : Request) :
-    ∀ o, (step cfg s (.req r)).2 = some o → ¬ OutOfFuel o.label := by
-  intro o ho
-  unfold step at ho
-  dsimp only at ho
-  cases ho
-  apply EndsAnswered.not_outOfFuel
-  apply answered_by_watchdog
-  simp only [List.length_nil]
-  omega
-
-example : ({} : Config).contactLimit + 2 ≤ defaultFuel := by decide
-
-/-! ### non-vacuity, and the counterexamples that make the hypotheses necessary -/
+/-! ### non-vacuity and the repaired defect -/
 
 /-- the entry a revalidating lookup hands out sits, encoded, in a cell of the disk it started from -/
 theorem lookup_writer_cell {cfg : Config} {now : Int} {keys : List Key} {d d1 : Disk} {client : Header}
@@ -1004,15 +1076,23 @@ def tagOf : Step → Option (Option Bool × String)
   | .reenter _ _ _ s _ tag => some (some s, tag)
   | .reenterLocked _ _ _ _ tag => some (none, tag)
 
-/-! #### 1. the 304 re-entry (`reenter_then_done`, `fuel_two_suffices`, `answered`, `step_answered`) -/
+/-! #### 1. the 304 re-entry -/
 
-/-- a stale entry (`max-age=1`, stored at 1, now 100) revalidated by a 304: the activation re-enters … -/
+/-- a stale entry (`max-age=1`, stored at 1, now 100) revalidated by a 304: the activation re-enters,
+    with `skipRevalidate = true` … -/
 example : tagOf (stepOnce cfg (originOf oGood) 100 req (diskOf (entry b!"max-age=1" 1)) [] [] false []) =
-    some (some false, "w:304>") := by decide
+    some (some true, "w:304>") := by decide
+
+/-- … and the request is answered from the re-published entry, whatever the fuel ≥ 2; the entry reads back
+    fresh (`max-age=60`, age 0), so the hit is not stale-marked -/
+example : (cachingFunc cfg (originOf oGood) 100 req defaultFuel (diskOf (entry b!"max-age=1" 1)) [] [] false []).label =
+    "w:304>f:hit" := by
+  rw [fuel_two_suffices _ _ _ _ _ _ _ _ _ (by decide)]
+  decide
 
 set_option maxRecDepth 100000 in
-/-- … the hypothesis holds (through `settles304_of`: clock not 0, stored header cacheable, re-published
-    metadata representable) … -/
+/-- `Settles304` holds here (through `settles304_of`: clock not 0, stored header cacheable, re-published
+    metadata representable): `reenter304_fresh_when_settled` applies -/
 theorem settles_good : Settles304 cfg (originOf oGood) 100 req (diskOf (entry b!"max-age=1" 1)) [] false [] := by
   apply settles304_of (by decide)
   intro d1 k s age resp hl hask _ _
@@ -1029,56 +1109,23 @@ theorem settles_good : Settles304 cfg (originOf oGood) 100 req (diskOf (entry b!
   subst hr
   exact ⟨by decide, codecFaithful_of_representable (by decide) (by decide)⟩
 
-/-- … and the request is answered from the re-published entry, whatever the fuel ≥ 2 -/
-example : (cachingFunc cfg (originOf oGood) 100 req defaultFuel (diskOf (entry b!"max-age=1" 1)) [] [] false []).label =
-    "w:304>f:hit" := by
-  rw [fuel_two_suffices settles_good (by decide)]
+/-- the bound 2 is sharp: with fuel for ONE activation this request is not answered -/
+theorem one_unit_not_enough :
+    OutOfFuel (cachingFunc cfg (originOf oGood) 100 req 1 (diskOf (entry b!"max-age=1" 1)) [] [] false []).label := by
   decide
 
-example : ¬ OutOfFuel
-    (cachingFunc cfg (originOf oGood) 100 req defaultFuel (diskOf (entry b!"max-age=1" 1)) [] [] false []).label :=
-  answered settles_good (by decide)
-
-/-- the same through `step` -/
-example : SettlesReq cfg { now := 100, disk := diskOf (entry b!"max-age=1" 1), origin := originOf oGood } req :=
-  settles_good
-
-/-! #### 2. the stale-if-error re-entry (`stale_reenter_then_done`: no hypothesis) -/
+/-! #### 2. the stale-if-error re-entry -/
 
 example : tagOf (stepOnce cfg (originOf o500) 100 req (diskOf (entry b!"max-age=1, stale-if-error=1000" 1)) [] [] false []) =
     some (some true, "w:stale>") := by decide
 
-set_option maxRecDepth 100000 in
-/-- `Settles304` holds here because the origin never answers 304 -/
-theorem settles_stale :
-    Settles304 cfg (originOf o500) 100 req (diskOf (entry b!"max-age=1, stale-if-error=1000" 1)) [] false [] := by
-  intro d1 k s age resp hl hask h304 _
-  have hs := lookup_writer_single (x0 := Codec.encode (entry b!"max-age=1, stale-if-error=1000" 1))
-    (m0 := entryD b!"max-age=1, stale-if-error=1000" 1) rfl (by decide) hl
-  subst hs
-  have h1 : ask cfg (originOf o500) req []
-      (Conditional.surgery .revalidating false [] (entryD b!"max-age=1, stale-if-error=1000" 1).respHeader).req =
-        some r500 := by decide
-  have h2 : (surgeryOf (Range.getRange []) [] (some (k, ⟨entryD b!"max-age=1, stale-if-error=1000" 1,
-      fileOf (entry b!"max-age=1, stale-if-error=1000" 1)⟩, age))).req =
-      (Conditional.surgery .revalidating false [] (entryD b!"max-age=1, stale-if-error=1000" 1).respHeader).req := rfl
-  rw [h2, h1] at hask
-  have := (Option.some.inj hask).symm
-  subst this
-  exact absurd h304 (by decide)
-
 example : (cachingFunc cfg (originOf o500) 100 req defaultFuel
     (diskOf (entry b!"max-age=1, stale-if-error=1000" 1)) [] [] false []).label = "w:stale>f:hit:stale" := by
-  rw [fuel_two_suffices settles_stale (by decide)]
+  rw [fuel_two_suffices _ _ _ _ _ _ _ _ _ (by decide)]
   decide
 
-/-! #### 3. COUNTEREXAMPLE, H1 (codec fidelity) is needed — and fails in a REACHABLE state.
-
-  The codec writes only the FIRST value of a header (finding C07-a).  An origin that sends two
-  `Cache-Control` lines, `max-age=0` first and `max-age=5` second: `GetCacheControlDirectives` reads
-  ALL values, the later number wins, `DoNotCache()` is false — the 200 is stored and the 304 is taken.
-  What comes back from the xattr is `Cache-Control: max-age=0`: due for revalidation at age 0.  Every
-  activation revalidates, gets 304, re-publishes, re-enters: the request is never answered. -/
+/-! #### 3. THE REPAIRED DEFECT: two `Cache-Control` lines (see the header comment).
+  The state is reachable: the first request (a miss) stores the answer; the codec keeps `max-age=0`. -/
 
 def oTwo : Origin :=
   { status := 200, body := b!"x", cond := true,
@@ -1089,48 +1136,56 @@ def diskTwo : Disk := (cachingFunc cfg (originOf oTwo) 100 req 2 Disk.empty [] [
 
 example : (cachingFunc cfg (originOf oTwo) 100 req 2 Disk.empty [] [] false []).label = "w:fill" := by decide
 
-/-- the second request, one second later: three activations, three re-entries, no answer … -/
-theorem loops_two_values :
-    (cachingFunc cfg (originOf oTwo) 101 req 3 diskTwo [] [] false []).label = "w:304>w:304>w:304>fuel" := by decide
-
-theorem loops_two_values_2 :
-    (cachingFunc cfg (originOf oTwo) 101 req 2 diskTwo [] [] false []).label = "w:304>w:304>fuel" := by decide
-
-/-- … so two activations do NOT always suffice: `fuel_two_suffices` without its hypothesis is false -/
-theorem fuel_two_suffices_unconditional_false :
-    ¬ ∀ (cfg : Config) (origin : Bytes → Option Origin) (now : Int) (req : Request) (d : Disk)
-        (client ai : Header) (skip : Bool) (cs : List Contact) (fuel : Nat), 2 ≤ fuel →
-        cachingFunc cfg origin now req fuel d client ai skip cs = cachingFunc cfg origin now req 2 d client ai skip cs := by
-  intro h
-  have := congrArg Ans.label (h cfg (originOf oTwo) 101 req diskTwo [] [] false [] 3 (by decide))
-  rw [loops_two_values, loops_two_values_2] at this
-  exact absurd this (by decide)
-
-/-- the hypothesis fails on this instance (it must: the conclusion does) -/
-theorem not_settles_two_values : ¬ Settles304 cfg (originOf oTwo) 101 req diskTwo [] false [] := by
-  intro hS
-  have := congrArg Ans.label (fuel_two_suffices (ai := []) hS (by decide : 2 ≤ 3))
-  rw [loops_two_values, loops_two_values_2] at this
-  exact absurd this (by decide)
-
-/-- the invariant "a stored header gives no do-not-cache reason" does NOT hold in reachable states: the
-    entry the first request stored reads back as `max-age=0` -/
+/-- still true: the invariant "a stored header gives no do-not-cache reason" does NOT hold in reachable
+    states: the entry the first request stored reads back as `max-age=0` (C07-a at fill time) -/
 theorem stored_doNotCache_reachable :
     ((diskTwo b!"h1.test/p").bind fun f => f.xattr.map fun x =>
       match Codec.decode x with
       | .ok (some m) => (getCacheControlDirectives m.respHeader).doNotCache
       | _ => false) = some true := by decide
 
-/-! #### 4. H2 (`now ≠ 0`) is needed: at Unix time 0 `Revalidated := now` reads as "never revalidated" -/
+/-- the second request, one second later, IS answered with two activations: one revalidation, then the
+    confirmed entry is served — stale-marked, because it reads back `max-age=0`
+    (before the repair: `w:304>w:304>w:304>fuel` with fuel 3, and so on without end) -/
+theorem two_values_answered :
+    (cachingFunc cfg (originOf oTwo) 101 req 2 diskTwo [] [] false []).label = "w:304>f:hit:stale" ∧
+    (cachingFunc cfg (originOf oTwo) 101 req 2 diskTwo [] [] false []).contacts.length = 1 := by decide
 
-theorem loops_at_time_zero :
-    (cachingFunc cfg (originOf oGood) 0 req 3 (diskOf (entry b!"max-age=1" (-100))) [] [] false []).label =
-      "w:304>w:304>w:304>fuel" := by decide
+/-- the second activation's lookup marks the hit stale -/
+def staleSecond : Step → Bool
+  | .reenter d' c' _ skip' _ _ =>
+    match (lookup cfg 101 (keysOf cfg req c') d' c' skip').2 with
+    | .serve _ _ true => true
+    | _ => false
+  | _ => false
 
-/-! #### 5. H1 again: a 304 whose header makes the re-published entry UNDECODABLE (a `|` in a value).
-  With an `Origin` request header there are two keys; both hold a stale entry.  Activation 1 revalidates
-  the first, activation 2 finds it undecodable (removed), revalidates the second, activation 3 finds
-  that one undecodable too and fills: three activations, not two (bounded by the number of keys). -/
+/-- `Settles304` still fails on this instance: that is why the hit is stale-marked -/
+theorem not_settles_two_values : ¬ Settles304 cfg (originOf oTwo) 101 req diskTwo [] false [] := by
+  intro hS
+  have h1 : staleSecond (stepOnce cfg (originOf oTwo) 101 req diskTwo [] [] false []) = true := by decide
+  have h2 : tagOf (stepOnce cfg (originOf oTwo) 101 req diskTwo [] [] false []) = some (some true, "w:304>") := by decide
+  cases hst : stepOnce cfg (originOf oTwo) 101 req diskTwo [] [] false [] with
+  | done a => rw [hst] at h1; cases h1
+  | reenterLocked d' c' ai' cs' tag => rw [hst] at h1; cases h1
+  | reenter d' c' ai' skip' cs' tag =>
+    rw [hst] at h1 h2
+    simp only [tagOf, Option.some.injEq, Prod.mk.injEq] at h2
+    obtain ⟨_, ht⟩ := h2
+    subst ht
+    have h3 := (reenter304_fresh_when_settled hS hst).2
+    -- the match of `staleSecond` cannot take its first arm (`h3`), so it says `false`
+    simp only [staleSecond] at h1
+    cases h1
+
+/-! #### 4. the clock at Unix time 0 (`Revalidated := now` reads as "never revalidated"): answered
+  (before the repair: `w:304>w:304>w:304>fuel`) -/
+
+theorem time_zero_answered :
+    (cachingFunc cfg (originOf oGood) 0 req 2 (diskOf (entry b!"max-age=1" (-100))) [] [] false []).label =
+      "w:304>f:hit:stale" := by decide
+
+/-! #### 5. a 304 whose header makes the re-published entry UNDECODABLE (a `|` in a value), two keys
+  (request with `Origin`), both cells hold a stale entry: two activations (before the repair three) -/
 
 def reqO : Request := { method := b!"GET", path := b!"p", header := [(b!"Origin", [b!"o"])] }
 def oPipe : Origin := { oGood with cc304 := b!"max-age=60, x=|" }
@@ -1138,13 +1193,15 @@ def diskO : Disk :=
   (Disk.empty.upd b!"h1.test/pOrigino" (some (fileOf (entry b!"max-age=1" 1)))).upd
     b!"h1.test/popaqueOrigin" (some (fileOf (entry b!"max-age=1" 1)))
 
-theorem three_activations_pipe :
-    (cachingFunc cfg (originOf oPipe) 100 reqO 3 diskO reqO.header [] false []).label = "w:304>w:304>w:fill" ∧
-    (cachingFunc cfg (originOf oPipe) 100 reqO 2 diskO reqO.header [] false []).label = "w:304>w:304>fuel" := by
+/-- the re-published first entry is undecodable and removed; the second activation serves the OTHER
+    key's entry, stale-marked; one contact -/
+theorem pipe_answered :
+    (cachingFunc cfg (originOf oPipe) 100 reqO 2 diskO reqO.header [] false []).label = "w:304>f:hit:stale" ∧
+    (cachingFunc cfg (originOf oPipe) 100 reqO 2 diskO reqO.header [] false []).contacts.length = 1 := by
   decide
 
 /-! #### 6. the arm `Step.reenterLocked` (request with Authorization, entry under a colliding key string):
-  no recursion, no fuel -/
+  no recursion, no fuel; since the repair the found entry is served, not waited for -/
 
 def reqA : Request := { method := b!"GET", path := b!"p", header := [(b!"Authorization", [b!"t"])] }
 def diskA : Disk := Disk.empty.upd b!"h1.test/pAuthorizationt" (some (fileOf (entry b!"max-age=1" 1)))
@@ -1152,7 +1209,9 @@ def diskA : Disk := Disk.empty.upd b!"h1.test/pAuthorizationt" (some (fileOf (en
 example : tagOf (stepOnce cfg (originOf oGood) 100 reqA diskA reqA.header [] false []) = some (none, "w:304>") := by
   decide
 
-example : (cachingFunc cfg (originOf oGood) 100 reqA 1 diskA reqA.header [] false []).label = "w:304>g:selfwait" := by
+/-- (before the repair: `w:304>g:selfwait`, `hang = true`) -/
+example : (cachingFunc cfg (originOf oGood) 100 reqA 1 diskA reqA.header [] false []).label = "w:304>f:hit:stale" ∧
+    (cachingFunc cfg (originOf oGood) 100 reqA 1 diskA reqA.header [] false []).out.hang = false := by
   decide
 
 end Ex
